@@ -46,6 +46,17 @@ type c17rec struct {
 
 func c17content(kind byte, size int) []byte { return bytes.Repeat([]byte{kind}, size) }
 
+// c17newOverride, when not negative, is the size of the new content (the previous content keeps
+// the size handed to c17state)
+var c17newOverride = -1
+
+func c17newSize(size int) int {
+	if c17newOverride >= 0 {
+		return c17newOverride
+	}
+	return size
+}
+
 const c17ops = "renameio.WriteFile fstree.writeFile fstree.Put fstree.Put/subdir utils.CreateAtomic utils.CopyFileAtomic utils.ReplaceFileAtomic renameio.Symlink"
 
 // c17run performs one operation; dir holds the destination (and nothing else), tmp is the temporary
@@ -133,7 +144,7 @@ func c17state(op, dir string, size int) string {
 		switch got.Payload {
 		case string(c17content('O', size)):
 			return "old"
-		case string(c17content('N', size)):
+		case string(c17content('N', c17newSize(size))):
 			return "new"
 		}
 		return fmt.Sprintf("a record with a payload of %d bytes", len(got.Payload))
@@ -146,7 +157,7 @@ func c17state(op, dir string, size int) string {
 		return "unreadable: " + err.Error()
 	case bytes.Equal(data, c17content('O', size)):
 		return "old"
-	case bytes.Equal(data, c17content('N', size)):
+	case bytes.Equal(data, c17content('N', c17newSize(size))):
 		return "new"
 	}
 	return fmt.Sprintf("%d bytes that are neither the previous nor the new content", len(data))
@@ -158,8 +169,11 @@ func TestBoundedC17Crash(t *testing.T) {
 		// (it counts per thread) walks through the calls of the operation
 		runtime.LockOSThread()
 		size := 64 << 10
-		if os.Getenv("C17_SIZE") == "large" {
+		switch os.Getenv("C17_SIZE") {
+		case "large":
 			size = 1 << 20
+		case "empty":
+			size = 0
 		}
 		if err := c17run(op, os.Getenv("C17_DIR"), os.Getenv("C17_TMP"), 'N', size); err != nil {
 			fmt.Println("C17-CHILD-ERROR", err)
@@ -242,10 +256,26 @@ func TestBoundedC17Crash(t *testing.T) {
 	crashRuns, errorRuns := 0, 0
 	if straceOK {
 		calls := "openat,write,pwrite64,fsync,fdatasync,close,rename,renameat,renameat2,unlinkat,chmod,fchmod,fchmodat,symlinkat,linkat,mkdirat,ftruncate"
+		type c17variant struct{ existing, emptyNew bool }
+		variants := []c17variant{{true, false}, {false, false}}
+		if thorough {
+			variants = append(variants, c17variant{true, true}, c17variant{false, true})
+		}
 		for _, op := range strings.Fields(c17ops) {
-			for _, existing := range []bool{true, false} {
+			for _, vr := range variants {
+				existing := vr.existing
+				c17newOverride = -1
+				if vr.emptyNew {
+					if op == "renameio.Symlink" {
+						continue
+					}
+					c17newOverride = 0
+				}
 				cases++
 				desc := fmt.Sprintf("%s, destination existing=%v", op, existing)
+				if vr.emptyNew {
+					desc += ", new content empty"
+				}
 				// strace counts the invocations of each system call separately: walk through the
 				// invocations of one call after the other
 				invocations := map[string]int{}
@@ -266,7 +296,9 @@ func TestBoundedC17Crash(t *testing.T) {
 						}
 						cmd := exec.Command("strace", "-f", "-o", "/dev/null", "-e", "trace="+call, "-e", fmt.Sprintf("inject=%s:when=%d:signal=KILL", call, n), os.Args[0], "-test.run=^TestBoundedC17Crash$")
 						cmd.Env = append(os.Environ(), "C17_CHILD_OP="+op, "C17_DIR="+dir, "C17_TMP="+tmp, "TMPDIR="+tmp)
-						if thorough {
+						if vr.emptyNew {
+							cmd.Env = append(cmd.Env, "C17_SIZE=empty")
+						} else if thorough {
 							cmd.Env = append(cmd.Env, "C17_SIZE=large")
 						}
 						out, err := cmd.CombinedOutput()
@@ -310,11 +342,15 @@ func TestBoundedC17Crash(t *testing.T) {
 							// what the killed run left behind does not disturb the next write (shorter content)
 							wasTmp := os.Getenv("TMPDIR")
 							_ = os.Setenv("TMPDIR", tmp)
+							savedOverride := c17newOverride
+							c17newOverride = -1
 							err := c17run(op, dir, tmp, 'N', size/2)
+							st := c17state(op, dir, size/2)
+							c17newOverride = savedOverride
 							_ = os.Setenv("TMPDIR", wasTmp)
 							if err != nil {
 								fail(fmt.Sprintf("%s, %s: the next write fails: %v", desc, what, err))
-							} else if st := c17state(op, dir, size/2); st != "new" {
+							} else if st != "new" {
 								fail(fmt.Sprintf("%s, %s: after the next write of shorter content the destination shows %s", desc, what, st))
 							}
 						}
@@ -349,7 +385,9 @@ func TestBoundedC17Crash(t *testing.T) {
 						}
 						cmd := exec.Command("strace", "-f", "-o", "/dev/null", "-e", "trace="+call, "-e", fmt.Sprintf("inject=%s:when=%d%s:error=EIO", call, n, persistent), os.Args[0], "-test.run=^TestBoundedC17Crash$")
 						cmd.Env = append(os.Environ(), "C17_CHILD_OP="+op, "C17_DIR="+dir, "C17_TMP="+tmp, "TMPDIR="+tmp)
-						if thorough {
+						if vr.emptyNew {
+							cmd.Env = append(cmd.Env, "C17_SIZE=empty")
+						} else if thorough {
 							cmd.Env = append(cmd.Env, "C17_SIZE=large")
 						}
 						out, err := cmd.CombinedOutput()
@@ -377,11 +415,12 @@ func TestBoundedC17Crash(t *testing.T) {
 			}
 		}
 	}
+	c17newOverride = -1
 	crashNote := fmt.Sprintf("each killed on entry to every invocation of each of 17 file-system calls (open, write, fsync, chmod, close, rename, unlink, symlink, mkdir ...) in turn, followed by a further write of shorter content (%d child runs under strace fault injection), and with every such invocation in turn failing with EIO instead (%d child runs; a failed flush must leave the previous state)", crashRuns, errorRuns)
 	if !straceOK {
 		crashNote = "crash part NOT run: strace fault injection is not usable here"
 	}
-	fmt.Printf("BOUNDED name=C17/crash-and-readers cases=%d distinct=%d bound=8 primitives (renameio.WriteFile, fstree.writeFile, fstree.Put of a record in the root and in a directory that does not exist yet, utils.CreateAtomic / CopyFileAtomic / ReplaceFileAtomic with a temporary directory, renameio.Symlink) with contents of %d KiB: 4 readers while the destination is replaced %d times; destination existing / missing, %s; a process kill does not lose unflushed data, downloads and unpacking are not run\n", cases, cases, size>>10, map[bool]int{false: 30, true: 200}[thorough], crashNote)
+	fmt.Printf("BOUNDED name=C17/crash-and-readers cases=%d distinct=%d bound=8 primitives (renameio.WriteFile, fstree.writeFile, fstree.Put of a record in the root and in a directory that does not exist yet, utils.CreateAtomic / CopyFileAtomic / ReplaceFileAtomic with a temporary directory, renameio.Symlink) with contents of %d KiB: 4 readers while the destination is replaced %d times; destination existing / missing (thorough: also with empty new content), %s; a process kill does not lose unflushed data, downloads and unpacking are not run\n", cases, cases, size>>10, map[bool]int{false: 30, true: 200}[thorough], crashNote)
 	_ = time.Now
 	if fails > 0 {
 		t.Fatalf("%d checks of %d cases fail", fails, cases)
